@@ -91,9 +91,9 @@ K_RK_R = [dict(name='bounded_rabinkarp_rev_n4_h8', bounded=True, bound='needle<=
 K_SO = [dict(name='bounded_shiftor_n4_h8', bounded=True, bound='needle<=4, haystack<=8', timeout=1500),
         dict(name='bounded_shiftor_unsupported_len', bounded=True, bound='needle<=17', timeout=900)]
 K_PAIR = [dict(name='bounded_pair_with_ranker_n24', bounded=True, bound='needle<=24, fully symbolic 256-entry ranker', timeout=1500),
-          dict(name='bounded_pair_default_ranker_long_tail', bounded=True, bound='needle length 254..=260 (253 fixed bytes + 6 symbolic), default ranker', timeout=1500),
+          dict(name='bounded_pair_default_ranker_long_tail', bounded=True, bound='needle length 254..=260 (253 fixed bytes + 6 symbolic), default ranker', tier='thorough', timeout=3600),
           dict(name='bounded_pair_with_ranker_long_tail', bounded=True, bound='needle length 250..=260 (252 fixed + 8 symbolic bytes), fully symbolic ranker', tier='thorough', timeout=7200)]
-K_GLUE = [dict(name='bounded_glue_fwd_n2_h4', bounded=True, bound='needle=2 bytes, haystack<=4, SIMD finders stubbed unavailable (fn-pointer pairing of Searcher::new/find)', timeout=1500),
+K_GLUE = [dict(name='bounded_glue_fwd_sse2_n2_h4', bounded=True, bound='needle=2 bytes, haystack<=4, AVX2 stubbed unavailable (fn-pointer pairing of Searcher::new/find on the SSE2 strategy)', tier='thorough', timeout=7200),
           dict(name='bounded_glue_sse2_n2_h19', bounded=True, bound='needle<=2, haystack<=19, symbolic ranker and PrefilterConfig, AVX2 stubbed off', tier='thorough', timeout=14400)]
 K_GLUE_R = [dict(name='bounded_glue_rev_n3_h6', bounded=True, bound='needle<=3, haystack<=6', timeout=1500)]
 K_TWPRE = [dict(name='bounded_twoway_prefilter_fwd_n3_h7', bounded=True, bound='needle 2..=3, haystack<=7, Two-Way with the portable prefilter', tier='thorough', timeout=14400)]
@@ -110,7 +110,7 @@ PROPS = {
     'C02': dict(level='proof', kinds=FUNCTIONAL, kani=K_LEAF,
                 builds=[dict(build='main', modules=MAIN_MODS_MEMCHR, select=SEL_C02)] + others(SEL_C02),
                 assumptions=[A_DISP, A_LEAF]),
-    'C03': dict(level='other', kinds=FUNCTIONAL, kani=K_TW_F + K_RK_F + K_GLUE + K_TWPRE,
+    'C03': dict(explore=True, level='other', kinds=FUNCTIONAL, kani=K_TW_F + K_RK_F + K_GLUE + K_TWPRE,
                 builds=[dict(build='memmem', modules=['memmem', 'cow', 'x_memmem'], select=SEL_MM_F),
                         dict(build='main', modules=MAIN_MODS_SUB + MAIN_MODS_MEMCHR,
                              select=SEL_SUB_F)],
@@ -118,7 +118,7 @@ PROPS = {
                             'proves the blocks (Rabin-Karp search = leftmost, packed-pair find = leftmost, Two-Way soundness/no-panic); Two-Way '
                             'completeness, constructors with iterator adapters and the union/fn-pointer glue are BOUNDED Kani harnesses',
                 assumptions=[A_TW, A_GLUE, A_CTOR, A_LEAF]),
-    'C04': dict(level='other', kinds=FUNCTIONAL, kani=K_TW_R + K_RK_R + K_GLUE_R,
+    'C04': dict(explore=True, level='other', kinds=FUNCTIONAL, kani=K_TW_R + K_RK_R + K_GLUE_R,
                 builds=[dict(build='memmem', modules=['memmem', 'cow', 'x_memmem'], select=SEL_MM_R),
                         dict(build='main', modules=MAIN_MODS_SUB + MAIN_MODS_MEMCHR, select=SEL_RK_R + SEL_TW_R + SEL_C02)],
                 explanation='hybrid as C03 for the reverse direction; SearcherRev (a plain enum) is proved in Verus against the block contracts',
@@ -138,7 +138,7 @@ PROPS = {
     'C07': dict(level='proof', kinds=FUNCTIONAL, kani=K_LEAF + K_POP,
                 builds=[dict(build='main', modules=MAIN_MODS_MEMCHR, select=SEL_C07)] + others(SEL_C07),
                 assumptions=[A_DISP, A_LEAF, 'u32::count_ones spec (popcount32) assumed in Verus, cross-checked by Kani harness leaf_count_ones_spec']),
-    'C08': dict(level='other', kinds=FUNCTIONAL, kani=K_TW_F + K_TW_R,
+    'C08': dict(explore=True, level='other', kinds=FUNCTIONAL, kani=K_TW_F + K_TW_R,
                 builds=[dict(build='memmem', modules=['memmem', 'x_memmem'],
                              select=[(MM, r'(FindIter|FindRevIter)::.*'), (MM, r'(find_iter|rfind_iter)'), (MM, r'(Finder|FinderRev)::(find_iter|rfind_iter)'),
                                      (r'^x_memmem$', r'.*')]),
@@ -147,13 +147,13 @@ PROPS = {
                 explanation='Verus proves FindIter/FindRevIter next and size_hint equal the greedy sequence, for every PrefilterState, against the '
                             'assumed Searcher / SearcherRev contracts (C03/C04 decide those)',
                 assumptions=[A_GLUE, A_TW]),
-    'C09': dict(level='proof', kinds=FUNCTIONAL, kani=K_LEAF,
+    'C09': dict(explore=True, level='proof', kinds=FUNCTIONAL, kani=K_LEAF,
                 builds=[dict(build='main', modules=MAIN_MODS_MEMCHR + MAIN_MODS_SUB, select=SEL_C01 + SEL_C02 + SEL_C07 + SEL_SUB_F + SEL_SUB_R)] + others(SEL_C01 + SEL_C02 + SEL_C07 + SEL_PP_FIND + SEL_PP_PRE),
                 explanation='corollary: SWAR, SSE2 and AVX2 implementations and all three dispatcher targets are proved against the same '
                             'functional specification whose answer is unique',
                 assumptions=[A_DISP, A_LEAF, 'cargo features (std/alloc/none) and compile-time +avx2 only change is_available() arms, which carry no postcondition '
                                              '(every outcome is covered); is_available of NEON/simd128 is proved true under its cfg']),
-    'C10': dict(level='other', kinds=FUNCTIONAL, kani=K_GLUE + K_PAIR + K_TWPRE,
+    'C10': dict(explore=True, level='other', kinds=FUNCTIONAL, kani=K_GLUE + K_PAIR + K_TWPRE,
                 builds=[dict(build='memmem', modules=['memmem', 'x_memmem'], select=[(MM, r'(Finder::find|FindIter::next|FinderBuilder::.*)'), (PRE, r'(Pre|PrefilterState)::.*')]),
                         dict(build='main', modules=MAIN_MODS_SUB + MAIN_MODS_MEMCHR,
                              select=SEL_SUB_F + [(PRE, r'.*')])],
@@ -164,7 +164,7 @@ PROPS = {
     'C11': dict(level='proof', kinds=FUNCTIONAL, kani=K_LEAF,
                 builds=[dict(build='main', modules=MAIN_MODS_SUB + MAIN_MODS_MEMCHR, select=SEL_PP_PRE + SEL_GLUE_P + SEL_C01)] + others(SEL_PP_PRE + SEL_C01)[:2],
                 assumptions=[A_LEAF, 'the fn-pointer hop Prefilter::find -> prefilter_kind_* is glue (bounded Kani only)']),
-    'C12': dict(level='other', kinds=FUNCTIONAL, kani=K_TW_F + K_TW_R + K_RK_F + K_RK_R + K_SO,
+    'C12': dict(explore=True, level='other', kinds=FUNCTIONAL, kani=K_TW_F + K_TW_R + K_RK_F + K_RK_R + K_SO,
                 builds=[dict(build='main', modules=MAIN_MODS_SUB, select=SEL_RK_F + SEL_RK_R + SEL_PP_FIND + SEL_TW_F + SEL_TW_R)],
                 explanation='per block: packed-pair find and Rabin-Karp search are proved equal to leftmost/rightmost; Two-Way soundness, '
                             'no-panic, termination proved, completeness BOUNDED; Shift-Or BOUNDED; constructors BOUNDED',
@@ -175,7 +175,7 @@ PROPS = {
                 explanation='every debug_assert (X3), assert (X4, pinned to the documented precondition both ways), index, slice, subtraction, '
                             'shift and unwrap in the extracted units is an obligation discharged by Verus',
                 assumptions=[A_CTOR, 'Shift-Or and the union/fn-pointer glue are covered by bounded Kani only']),
-    'C16': dict(level='other', kinds=FUNCTIONAL, kani=[],
+    'C16': dict(explore=True, level='other', kinds=FUNCTIONAL, kani=[],
                 builds=[dict(build='memmem', modules=['memmem', 'cow', 'x_memmem'], select=[(MM, r'(Finder|FinderRev|FindIter|FindRevIter)::.*'), (COW, r'.*')]),
                         dict(build='main', modules=MAIN_MODS_SUB + MAIN_MODS_MEMCHR,
                              select=SEL_SUB_F + SEL_SUB_R)],
@@ -186,7 +186,7 @@ PROPS = {
     'C18': dict(level='proof', kinds=FUNCTIONAL + ('arithmetic',), kani=[],
                 builds=[dict(build='main', modules=['ext', 'vbase', 'arch::all'], select=[(EQ, r'.*'), (r'^ext$', r'.*'), (r'^vbase$', r'.*')])],
                 assumptions=[]),
-    'C19': dict(level='other', kinds=FUNCTIONAL + ('assertion',), kani=K_PAIR,
+    'C19': dict(explore=True, level='other', kinds=FUNCTIONAL + ('assertion',), kani=K_PAIR,
                 builds=[dict(build='main', modules=MAIN_MODS_SUB, select=[(APP, r'(Pair::.*|Finder::(new|with_pair|pair))'),
                                                                           (GPP, r'Finder::(new|pair|min_haystack_len)'),
                                                                           (XPP, r'Finder::(new|with_pair|with_pair_impl|pair|min_haystack_len)')])],
